@@ -388,6 +388,31 @@ pub fn plain_text_ok(s: &str) -> bool {
     raw_name_ok(s)
 }
 
+/// an unquoted name with some characters written as escapes (`caf\u00e9`, `caf\u{00E9}`, pairs)
+fn raw_spell(name: &str, st: &mut Style) -> String {
+    if st.plain || st.next() % 4 != 0 {
+        return name.to_string();
+    }
+    let mut out = String::new();
+    for c in name.chars() {
+        let sel = st.next();
+        let cp = c as u32;
+        if sel % 3 == 0 && cp < 0x10000 {
+            if sel & 0x100 != 0 {
+                out.push_str(&format!("\\u{cp:04X}"));
+            } else {
+                out.push_str(&format!("\\u{{{cp:04x}}}"));
+            }
+        } else if sel % 3 == 0 {
+            let v = cp - 0x10000;
+            out.push_str(&format!("\\u{:04X}\\u{:04x}", 0xD800 + (v >> 10), 0xDC00 + (v & 0x3FF)));
+        } else {
+            out.push(c);
+        }
+    }
+    out
+}
+
 fn quote(s: &str, st: &mut Style) {
     let mut out = String::from("\"");
     for c in s.chars() {
@@ -466,7 +491,8 @@ fn p_step(s: &Step, st: &mut Style) {
                 FieldForm::Dot | FieldForm::Colon => {
                     st.emit(if *form == FieldForm::Dot { "." } else { ":" });
                     if raw {
-                        st.emit_raw_name(name);
+                        let spelled = raw_spell(name, st);
+                        st.emit_raw_name(&spelled);
                     } else {
                         quote(name, st);
                     }
@@ -624,7 +650,10 @@ pub fn print(a: &PathAst, st: &mut Style) -> String {
         PathAst::Steps(start, steps) => {
             match start {
                 Start::Root => st.emit("$"),
-                Start::Bare(n) => st.emit_raw_name(n),
+                Start::Bare(n) => {
+                    let spelled = raw_spell(n, st);
+                    st.emit_raw_name(&spelled);
+                }
                 Start::None => {}
             }
             p_steps(steps, st);
@@ -775,8 +804,9 @@ fn cmp_pair(op: CmpOp, l: &Lit, r: &Lit) -> Tri {
         (Lit::Null, Lit::Null) => Ordering::Equal,
         (Lit::Bool(a), Lit::Bool(b)) => a.cmp(b),
         (Lit::Num(a), Lit::Num(b)) => {
-            if !a.is_finite() || !b.is_finite() {
-                // comparisons with NaN / infinities are not part of the documented meaning
+            // NaN has no documented meaning in a path comparison; the infinities order by value
+            let nan = |n: &N| matches!(n, N::F(f) if f.is_nan());
+            if nan(a) || nan(b) {
                 return Tri::Unknown;
             }
             num_cmp(a, b)
@@ -1130,7 +1160,7 @@ impl Jser for PathAst {
 /// finite documents (comparisons with NaN/inf have no documented meaning) with container
 /// roots most of the time, and a path derived against the document, printed with style
 pub fn arb_path_for(p: TreeParams) -> BoxedStrategy<PathCase> {
-    (arb_doc(p.finite()), vec(any::<u16>(), 4..40), vec(any::<u16>(), 0..12), any::<bool>())
+    (arb_doc(p), vec(any::<u16>(), 4..40), vec(any::<u16>(), 0..12), any::<bool>())
         .prop_map(|(doc, ch, style, plain)| {
             let ast = derive_path_ast(&doc, &ch);
             let path = print(&ast, &mut Style::new(&style, plain));
